@@ -66,6 +66,7 @@ theorem just_stable (s s' : Sys) (hev : Evolves s s') (e : Effect) (h : Just s e
   | createProp p => exact h
   | createCfg t n => trivial
   | cfgVals t v => trivial
+  | cfgAVals t v => trivial
   | dev r => trivial
   | cfg t ver u sh ash oc =>
     cases u with
@@ -412,13 +413,14 @@ theorem phaseInv_frame (s s' : Sys) (hinv : PhaseInv s) (htx : s'.txs = s.txs) (
   · intro i t h; rw [htx?] at h; exact hinv.init_props i t h
 
 theorem exec_other_frame (s : Sys) (e : Effect)
-    (he : (∃ t n, e = .createCfg t n) ∨ (∃ t v, e = .cfgVals t v) ∨ (∃ r, e = .dev r) ∨
+    (he : (∃ t n, e = .createCfg t n) ∨ (∃ t v, e = .cfgVals t v ∨ e = .cfgAVals t v) ∨ (∃ r, e = .dev r) ∨
       (∃ t ver u sh ash oc, e = .cfg t ver u sh ash oc)) :
     (exec s e).1.txs = s.txs ∧ (exec s e).1.props = s.props ∧
     (∀ m ∈ (exec s e).1.commitLog, m ∈ s.commitLog ∨
       ∃ t ver idx ni sh ash oc, e = .cfg t ver (.commit idx ni) sh ash oc ∧ m = (t, idx)) := by
-  rcases he with ⟨t, n, h⟩ | ⟨t, v, h⟩ | ⟨r, h⟩ | ⟨t, ver, u, sh, ash, oc, h⟩ <;> subst h <;> simp only [exec]
+  rcases he with ⟨t, n, h⟩ | ⟨t, v, h | h⟩ | ⟨r, h⟩ | ⟨t, ver, u, sh, ash, oc, h⟩ <;> subst h <;> simp only [exec]
   · cases s.cfg? t <;> simp
+  · cases s.cfg? t <;> simp [Sys.setCfg]
   · cases s.cfg? t <;> simp [Sys.setCfg]
   · split <;> simp [Sys.setDev] <;> split <;> simp
   · cases hc : s.cfg? t with
@@ -472,7 +474,14 @@ theorem exec_step (s : Sys) (hinv : PhaseInv s) (e : Effect) (hj : Just s e) :
     · exact Or.inl h
     · cases h
   | cfgVals t v =>
-    obtain ⟨h1, h2, h3⟩ := exec_other_frame s (.cfgVals t v) (Or.inr (Or.inl ⟨_, _, rfl⟩))
+    obtain ⟨h1, h2, h3⟩ := exec_other_frame s (.cfgVals t v) (Or.inr (Or.inl ⟨_, _, Or.inl rfl⟩))
+    refine ⟨phaseInv_frame s _ hinv h1 h2 ?_, Evolves.refl_of_eq s _ h1 h2⟩
+    intro m hm
+    rcases h3 m hm with h | ⟨_, _, _, _, _, _, _, h, _⟩
+    · exact Or.inl h
+    · cases h
+  | cfgAVals t v =>
+    obtain ⟨h1, h2, h3⟩ := exec_other_frame s (.cfgAVals t v) (Or.inr (Or.inl ⟨_, _, Or.inr rfl⟩))
     refine ⟨phaseInv_frame s _ hinv h1 h2 ?_, Evolves.refl_of_eq s _ h1 h2⟩
     intro m hm
     rcases h3 m hm with h | ⟨_, _, _, _, _, _, _, h, _⟩
